@@ -89,6 +89,24 @@ def modules():
     add('rlfq', lambda: ResidualLFQ(dim=3, codebook_size=8, num_quantizers=3), 3, single=False)
     add('latent', lambda: LatentQuantize(levels=[5, 4], dim=2), 2, single=False)
     add('rpq', lambda: RandomProjectionQuantizer(dim=4, codebook_size=8, codebook_dim=3, num_codebooks=2), 4, single=False)
+    # VectorQuantize called with a per-position codebook transform (the hook of implicit neural codebooks) and a differentiable consumer of the
+    # distance matrix; `codes` are the TRANSFORMED codes, so the equal-to-codes families hit exactly-zero distances on this path
+    import torch
+    from einops import repeat as _repeat
+
+    class TransformVQ(nn.Module):
+        def __init__(self, **kw):
+            super().__init__()
+            self.vq = VectorQuantize(dim=4, codebook_size=8, learnable_codebook=True, ema_update=False, **kw)
+            self.to_codes = nn.Linear(4, 4)
+
+        def forward(self, x):
+            b_, n_ = x.shape[0], x.shape[1]
+            return self.vq(x, codebook_transform_fn=lambda e: _repeat(self.to_codes(e), 'h c d -> h b n c d', b=b_, n=n_))
+    tcodes = lambda m: m.to_codes(m.vq._codebook.embed)[0].detach()
+    add('vq-transform-ce', lambda: TransformVQ(commitment_use_cross_entropy_loss=True), 4, single=False, codes=tcodes)
+    add('vq-transform-diversity', lambda: TransformVQ(codebook_diversity_loss_weight=1.), 4, single=False, codes=tcodes)
+    add('vq-transform-st', lambda: TransformVQ(rotation_trick=False, straight_through=True, stochastic_sample_codes=True), 4, single=False, codes=tcodes)
     # all-pairs option sets of FSQ / LFQ / residual stacks (sequence layout; vlib/zoo.py)
     from vlib import zoo
     for kind in ('fsq', 'lfq', 'res'):
